@@ -243,13 +243,20 @@ def run_siblings(args):
     if base is None:
         base = docs.gen_dfxp(rng, nlangs=1) if fmt == "dfxp" else docs.gen_sami(rng)
     cls = docs.READER_OF[fmt]
+    if fmt == "sami" and "color:" not in base.lower():
+        base = base.replace("-->", ".Tint {color: white;}\n-->", 1)
     sibs = docs.head_siblings(base, limit=args.get("limit", 40))
     for k, sib in enumerate(sibs):
-        for order in (0, 1):
+        for order in (0, 1, 2):
             if time.time() > args.get("deadline", 1e18):
                 out["cut_by_deadline"] = True
                 break
-            first, second = (base, sib) if order == 0 else (sib, base)
+            if order == 2:
+                if k + 1 >= len(sibs):
+                    continue
+                first, second = sib, sibs[k + 1]       # two siblings in a row (both damaged, differently)
+            else:
+                first, second = (base, sib) if order == 0 else (sib, base)
             hs = rng.sample(hp, 3)
             plan = {"property": prop, "run_seed": args["run_seed"], "hash_seeds": {"history": hs[0], "ref": hs[1:]},
                     "ops": [{"kind": "read", "cls": cls, "ctor": {}, "call": {}, "via": "fresh", "doc": {"inline": first}, "out": "s0", "session": 0},
